@@ -86,9 +86,16 @@ def check(ctx):
             return x.enter(m, dict(args or x.symbolic_args(m)), Inst(ci, {}, "self"), None, ci)
 
         ps = [p for p in it.explore(run) if p.outcome == "return"]
-        if len(ps) != 1:
-            raise AnalysisError(f"{m.qualname}: expected one path")
-        return m, ps[0]
+        # partitions that return the same term (the equivalent arms of a version gate) are one result; a partition that
+        # returns something else is a transform that is not the documented one there
+        uniq = {}
+        for p_ in ps:
+            uniq.setdefault(nf.key(it.to_nf(p_.value)) if p_.value is not None else None, p_)
+        if len(uniq) > 1:
+            ctx.bad("C20-a", m.qualname + ":one transform", m.where(), "the transform is one function of its argument on every partition (version gates, options)", signature="transform partitions " + str(len(uniq)), decisions=sorted({d for p_ in ps for _k, _c, d in p_.decisions})[:6])
+        if not uniq:
+            raise AnalysisError(f"{m.qualname}: no returning path")
+        return m, max(uniq.values(), key=lambda p_: nf.size(it.to_nf(p_.value)) if p_.value is not None else 0)
 
     a = nf.sym("a")
     mf, pf = meth(fwd, "transform_non_affine")
